@@ -49,6 +49,11 @@ impl BlkFile {
         }
     }
 
+    #[cfg(rbp_verif)]
+    pub fn verif_is_open(&self) -> bool {
+        self.reader.is_some()
+    }
+
     pub fn read_block(&mut self, offset: u64, coin: &CoinType) -> Result<Block> {
         let reader = self.open()?;
         reader.seek(SeekFrom::Start(offset - 4))?;
@@ -91,6 +96,13 @@ impl BlkFile {
         }
 
         trace!(target: "blkfile", "Found {} blk files", collected.len());
+        #[cfg(rbp_verif)]
+        if crate::verif::on() {
+            let mut ks: Vec<&u64> = collected.keys().collect();
+            ks.sort();
+            let ks: Vec<String> = ks.iter().map(|k| format!("\"{}\"", k)).collect();
+            crate::verif::ev("files", &format!("\"nums\":[{}],\"xor\":{}", ks.join(","), xor_key.is_some()));
+        }
         if collected.is_empty() {
             Err("No blk files found!".into())
         } else {
